@@ -1,6 +1,6 @@
 (* Line-oriented entry point of the executable model: run "cmd sexp" = answer line. *)
 From Coq Require Import String Ascii List Bool Arith.
-From Wrap Require Import Base.Str Base.ListX Syntax.Ast Syntax.Sexp Syntax.Codec Syntax.Print Inst.Model.
+From Wrap Require Import Base.Str Base.ListX Syntax.Ast Syntax.Sexp Syntax.Codec Syntax.Print Inst.Model Inst.Proj.
 Import ListNotations.
 Open Scope string_scope.
 
@@ -13,7 +13,7 @@ Fixpoint split_cmd (s : string) (acc : string) : string * string :=
 Definition bit (s : string) (k : nat) : bool :=
   match String.get k s with Some c => is c "1"%char | None => false end.
 Definition d_quirks (s : string) : quirks :=
-  {| q_cap_all := bit s 0; q_scoped_substring := bit s 1 |}.
+  {| q_cap_all := bit s 0; q_scoped_substring := bit s 1; q_typedef_stale := bit s 2 |}.
 
 Definition show_res {A} (f : A -> sexp) (r : res A) : string :=
   match r with
@@ -32,12 +32,35 @@ Definition run_inst (x : sexp) : string :=
   | _ => "badshape"
   end.
 
+(* projection of the model's instantiation of a parse tree *)
+Definition run_instproj (x : sexp) : string :=
+  match x with
+  | SList [Atom qs; SList ds] =>
+    match sequence (map d_decl ds) with
+    | Some m => show_res p_items (instantiate (d_quirks qs) m)
+    | None => "baddecode"
+    end
+  | _ => "badshape"
+  end.
+(* projection of a given instantiated tree (e.g. the implementation's, dumped) *)
+Definition run_proj (x : sexp) : string :=
+  match x with
+  | SList its =>
+    match sequence (map d_item its) with
+    | Some l => "ok " ++ print (p_items l)
+    | None => "baddecode"
+    end
+  | _ => "badshape"
+  end.
+
 Definition run (line : string) : string :=
   let '(cmd, rest) := split_cmd line EmptyString in
   match read rest with
   | None => "badsexp"
   | Some x =>
     if String.eqb cmd "inst" then run_inst x
+    else if String.eqb cmd "instproj" then run_instproj x
+    else if String.eqb cmd "proj" then run_proj x
     else if String.eqb cmd "echo" then print x
     else "badcmd"
   end.
